@@ -159,6 +159,24 @@ check("C17", level="model_checking", engine="nx",
       note=NX_NOTE + " The reference graph contains discovered dependencies only when ninja could load them (existing depfile, "
            "valid deps record) and dyndep-supplied outputs only once the bound statement is reachable.", design_ref="5/C17")
 
+check("C10", level="model_checking", engine="nx",
+      technique="explicit-state BFS over histories x exhaustive schedule DFS, lock-step metamorphic twin (discovered vs declared dependencies)",
+      text="For depfile / deps=gcc / deps=msvc consumers with source headers, generated headers with and without a manifest "
+           "path and restat-generated headers, every history up to the depth bound is run on the scenario and on its twin "
+           "with the same dependencies declared as implicit inputs: equal started sets and success per invocation (every "
+           "schedule), ordering after the producers of discovered dependencies, clean-build final state; the permitted "
+           "difference (a vanished discovered dependency rebuilds instead of failing) is modelled.",
+      note=NX_NOTE, design_ref="5/C10")
+check("C11", level="model_checking", engine="nx",
+      technique="explicit-state BFS over histories x exhaustive schedule DFS, lock-step metamorphic twin (dyndep vs inlined manifest); exhaustive invalid-variant and every-byte truncation enumeration against a reference reader",
+      text="Valid side: six dyndep shapes (existing/produced file, added inputs, implicit outputs, restat, shared file, two "
+           "levels) are explored in lock step with the inlined twin: equal started sets and success on every schedule, "
+           "ordering after producers of dyndep-supplied inputs, clean-build final state. Invalid side: every structural "
+           "mutation and every truncation offset that the reference reader classifies as not a valid complete description, "
+           "pre-existing and produced mid-build, must make the build fail.",
+      note=NX_NOTE + " Reference reader for the invalid side: lib/templates_c11.py ref_parse/valid_for (simple lexical forms only).",
+      design_ref="5/C11")
+
 ALL = ["C%02d" % i for i in range(1, 21)]
 
 
